@@ -23,6 +23,9 @@ pub struct Case {
     /// compare the serverId the real MojangAdapter sends (through the loopback mock) instead of the bare function
     #[serde(default)]
     pub via_adapter: bool,
+    /// through a whole instance: (server id in the environment layer?, how the configuration is layered)
+    #[serde(default)]
+    pub configured: Option<(bool, crate::layers::LayerPlan)>,
 }
 
 pub struct C11;
@@ -52,6 +55,17 @@ fn classes_of(digest: &[u8; 20]) -> Vec<String> {
 fn decide(case: &Case) -> (Verdict, CaseInfo) {
     let digest = refcrypto::sha1(&[case.server_id.as_bytes(), &case.secret, &case.key]);
     let expect = refcrypto::signed_hex(&digest);
+    if let Some((via_env, plan)) = &case.configured {
+        let info = CaseInfo::new(true, vec!["configured_instance".to_string()]);
+        return match crate::checks::c12::observed_server_id_configured(&case.server_id, *via_env, plan) {
+            Ok((sent, expect)) if sent != expect => (
+                Verdict::Fail { sig: "configured-server-id-hash-differs-from-minecraft-hash".into(), msg: format!("server id {:?} configured through {} ({}): the session service was asked with serverId {sent:?}, Minecraft's hash of (server id, secret, key) is {expect:?}", case.server_id, if *via_env { "the environment" } else { "the configuration file" }, plan.label()) },
+                info,
+            ),
+            Ok(_) => (Verdict::Pass, info),
+            Err(e) => (Verdict::Inconclusive(format!("configured instance: {e}")), info),
+        };
+    }
     let got = if case.via_adapter {
         match crate::checks::c12::observed_server_id(&case.server_id, &case.secret, &case.key) {
             Some(s) => s,
@@ -89,7 +103,7 @@ impl Check for C11 {
             1 => proptest::collection::vec(any::<u8>(), 0..=64),
         ];
         let key = proptest::collection::vec(any::<u8>(), 0..=300);
-        (server_id, secret, key).prop_map(|(server_id, secret, key)| Case { server_id, secret, key, via_adapter: false }).boxed()
+        (server_id, secret, key).prop_map(|(server_id, secret, key)| Case { server_id, secret, key, via_adapter: false, configured: None }).boxed()
     }
     fn cases(&self, tier: Tier) -> u64 {
         tier.pick(200_000, 50_000_000)
@@ -126,7 +140,7 @@ impl Check for C11 {
                         let rare = lead >> 20 == 0 || lead >> 20 == 0xfff || (d[0] == 0x80 && d[1] == 0);
                         if rare {
                             mined.fetch_add(1, std::sync::atomic::Ordering::Relaxed);
-                            let case = Case { server_id: String::new(), secret: secret.to_vec(), key: key.to_vec(), via_adapter: false };
+                            let case = Case { server_id: String::new(), secret: secret.to_vec(), key: key.to_vec(), via_adapter: false, configured: None };
                             let (v, info) = decide(&case);
                             stats.record(crate::runner::hash_json(&case), &info, || serde_json::to_value(&case).unwrap());
                             if let Verdict::Fail { sig, msg } = v {
@@ -154,11 +168,46 @@ impl Check for C11 {
                 adapter_cases += 1;
                 let expect = refcrypto::mc_hash(id, &secret, &key);
                 if sent != expect {
-                    found.lock().unwrap().push(("adapter-hash-differs-from-minecraft-hash".to_string(), format!("configured server id {id:?}: the session service was asked with serverId {sent:?}, Minecraft's hash of (server id, secret, key) is {expect:?}"), serde_json::to_value(Case { server_id: id.to_string(), secret: secret.clone(), key: key.clone(), via_adapter: true }).unwrap()));
+                    found.lock().unwrap().push(("adapter-hash-differs-from-minecraft-hash".to_string(), format!("configured server id {id:?}: the session service was asked with serverId {sent:?}, Minecraft's hash of (server id, secret, key) is {expect:?}"), serde_json::to_value(Case { server_id: id.to_string(), secret: secret.clone(), key: key.clone(), via_adapter: true, configured: None }).unwrap()));
                     break 'outer;
                 }
             }
         }
+        // ... and through a whole instance whose server id comes from the operator's layered configuration
+        // (file formats, environment): ids that look like numbers or booleans are still ids
+        let conf_ids = ["", "lobby", "007", "1e3", "TRUE", "false", "0x1f", "1_000", "3.0", "-0", "+5", "null", "~", "yes", "Lobby-1", "a b", "gr\u{fc}\u{df}e", "0.10"];
+        let conf_rounds: u64 = tier.pick(1, 12);
+        let mut configured = 0u64;
+        let mut not_started = 0u64;
+        'conf: for _ in 0..conf_rounds {
+            for id in conf_ids {
+                x ^= x << 13;
+                x ^= x >> 7;
+                x ^= x << 17;
+                let plan = crate::layers::LayerPlan::from_bits(x);
+                for via_env in [false, true] {
+                    // an empty value cannot be told from an unset variable
+                    if via_env && id.is_empty() {
+                        continue;
+                    }
+                    let case = Case { server_id: id.to_string(), secret: vec![], key: vec![], via_adapter: false, configured: Some((via_env, plan.clone())) };
+                    match decide(&case).0 {
+                        Verdict::Pass => configured += 1,
+                        Verdict::Fail { sig, msg } => {
+                            found.lock().unwrap().push((sig, msg, serde_json::to_value(&case).unwrap()));
+                            break 'conf;
+                        }
+                        Verdict::Inconclusive(e) => {
+                            not_started += 1;
+                            stats.set_extra("configured_instance_last_problem", json!(e));
+                        }
+                    }
+                }
+            }
+        }
+        stats.set_extra("configured_instance_logins_checked", json!(configured));
+        stats.set_extra("configured_instance_problems", json!(not_started));
+        stats.evaluations.fetch_add(configured, std::sync::atomic::Ordering::Relaxed);
         stats.set_extra("adapter_requests_checked", json!(adapter_cases));
         stats.evaluations.fetch_add(adapter_cases, std::sync::atomic::Ordering::Relaxed);
         stats.set_extra("mined_inputs_scanned_with_reference", json!(n));
